@@ -19,14 +19,29 @@ def closure(ctx, exe, tag, nk, props):
     impl_phase(ctx, "impl-" + tag, exe, ["explore"], [nk, 1, 1], "TraceMap", kdef(nk), consts(nk), props, expect_states=r.distinct)
 
 
+def map_line(o):
+    if o["op"] == "insert":
+        return f"0 {o['k']} {o['ko']} {o['vo']} {0 if o['a'] else 1}"
+    if o["op"] == "erase":
+        return f"2 {o['k']}"
+    return "4 1"
+
+
+def generated(ctx, exe, tag, nk, depth, num, props):
+    """spec -> code: walks of the Map machine chosen by TLC's simulator, replayed into src/map.c"""
+    gen_replay(ctx, tag, "GenMap", kdef(nk), consts(nk), depth, num, map_line, exe, [nk, 1, 1], "TraceMap", consts(nk), props)
+
+
 def run(ctx):
     props = {ctx.pid}
     exe = build(ctx, "drv_map", "drv_map.c", LIB, wrap=WRAP)
     if ctx.quick:
         closure(ctx, exe, "k4", 4, props)
+        generated(ctx, exe, "gen-k10", 10, 30, 20, props)
         nk, steps = 40, 6000
     else:
         closure(ctx, exe, "k5", 5, props)
+        generated(ctx, exe, "gen-k16", 16, 60, 150, props)
         nk, steps = 64, 40000
     impl_phase(ctx, "rand", exe, ["random", ctx.seed, steps, 2], [nk, 1, 1], "TraceMap", kdef(nk), consts(nk), props)
     ctx.assumptions += [
